@@ -14,7 +14,7 @@ import apidoc
 import rel
 from common import Check, harness, seed
 
-REWRITES = ["comments", "blank", "indent", "trailing", "crlf", "cr", "quote", "parens", "all"]
+REWRITES = ["comments", "blank", "indent", "trailing", "crlf", "cr", "quote", "parens", "tabs", "all"]
 
 
 def style(name, rnd):
@@ -35,6 +35,8 @@ def style(name, rnd):
         return S(quote=0.7, rnd=rnd)
     if name == "parens":
         return S(parens=0.7, rnd=rnd)
+    if name == "tabs":
+        return S(tabs_between=True)
     return S(nl=rnd.choice(["\n", "\r\n"]), indent=rnd.choice(["", "   ", "\t"]), comments=0.3, blank=0.3,
              trailing=rnd.choice([True, False]), quote=0.4, parens=0.4, rnd=rnd)
 
